@@ -32,11 +32,11 @@ theorem get?_erase_ne (l : Layer V) {k k' : Key} (h : k ≠ k') : get? (erase l 
       · simp [h1]
       · simp [h1]; exact ih
 
-theorem get?_set_self (l : Layer V) (k : Key) (v : Node V) : get? (set l k v) k = some v := by
-  simp [set, get?]
+theorem get?_assign_self (l : Layer V) (k : Key) (v : Node V) : get? (assign l k v) k = some v := by
+  simp [assign, get?]
 
-theorem get?_set_ne (l : Layer V) {k k' : Key} (v : Node V) (h : k ≠ k') : get? (set l k v) k' = get? l k' := by
-  simp [set, get?, h]; exact get?_erase_ne l h
+theorem get?_assign_ne (l : Layer V) {k k' : Key} (v : Node V) (h : k ≠ k') : get? (assign l k v) k' = get? l k' := by
+  simp [assign, get?, h]; exact get?_erase_ne l h
 
 theorem get?_isSome_of_mem {l : Layer V} {k : Key} {v : Node V} (h : (k, v) ∈ l) : (get? l k).isSome = true := by
   induction l with
@@ -62,7 +62,7 @@ theorem mem_of_get? {l : Layer V} {k : Key} {v : Node V} (h : get? l k = some v)
 theorem get?_append (l r : Layer V) (k : Key) :
     get? (l ++ r) k = match get? l k with | some v => some v | none => get? r k := by
   induction l with
-  | nil => simp [get?]; cases get? r k <;> rfl
+  | nil => simp [get?]
   | cons p t ih =>
     obtain ⟨k0, v0⟩ := p
     by_cases h0 : k0 = k
